@@ -320,6 +320,15 @@ pub mod sp {
         assert forall|x: String| #[trigger] m.insert(k, e).contains_key(x) <==> q.push(k).contains(x) by { }
     }
 
+    /// replacing a resident key in place: it was un-queued first, its store entry is overwritten
+    pub broadcast proof fn b_wf_replace<V>(m: Map<String, V>, q: Seq<String>, k: String, e: V)
+        requires wf(m.remove(k), q), !q.contains(k)
+        ensures #[trigger] wf(m.insert(k, e), q.push(k))
+    {
+        assert(m.insert(k, e) =~= m.remove(k).insert(k, e));
+        b_wf_push(m.remove(k), q, k, e);
+    }
+
     /// makes the last element of a pushed sequence available as a term (witness for "some stored entry ...")
     pub broadcast proof fn b_push_last(s: Seq<String>, k: String)
         ensures (#[trigger] s.push(k))[s.len() as int] == k, s.push(k).len() == s.len() + 1
@@ -386,7 +395,7 @@ pub mod sp {
         ensures #[trigger] m.remove(k) == m
     { assert(m.remove(k) =~= m); }
 
-    pub broadcast group group_wf { b_remove_absent, b_take_contains, b_take_full, b_suffix_refl, b_suffix_pop, b_rm1_index, b_push_subrange, b_push_drop_last, b_insert_remove_same, b_push_last, b_wf_push, b_wf_mutated, b_rm_all_nodup, b_wf_len, b_rm1_len, b_wf_remove, b_wf_store, b_wf_touch, b_nodup_pos,
+    pub broadcast group group_wf { b_remove_absent, b_take_contains, b_take_full, b_suffix_refl, b_suffix_pop, b_rm1_index, b_push_subrange, b_push_drop_last, b_insert_remove_same, b_push_last, b_wf_push, b_wf_replace, b_wf_mutated, b_rm_all_nodup, b_wf_len, b_rm1_len, b_wf_remove, b_wf_store, b_wf_touch, b_nodup_pos,
         b_pop_front_is_remove0, b_drop_first_is_remove0, b_pop_back_is_remove_last }
 
     // ---- memory totals: the sum of a per-entry size along the queue (under wf the queue enumerates the store exactly once)
